@@ -193,8 +193,10 @@ def r5_stale_shape(ctx):
     ix = ctx.index
     n = 0
     from ..through_time import anchor_modules
-    mods = set(anchor_modules(ctx.prop)) | {EA, "bionumpy.io.strops", "bionumpy.sequence.dna", "bionumpy.sequence.kmers", "bionumpy.encodings.alphabet_encoding", "bionumpy.util.ragged_slice",
-                                            "bionumpy.string_array", "bionumpy.io.dump_csv"}
+    mods = set(anchor_modules(ctx.prop))
+    if ctx.prop in ("C06", "C07"):      # every place that flattens encoded ragged text
+        mods |= {EA, "bionumpy.io.strops", "bionumpy.sequence.dna", "bionumpy.sequence.kmers", "bionumpy.encodings.alphabet_encoding", "bionumpy.util.ragged_slice",
+                 "bionumpy.string_array", "bionumpy.io.dump_csv"}
     for mod in sorted(mods):
         if mod not in ix.modules:
             continue
@@ -214,14 +216,26 @@ def r5_stale_shape(ctx):
                 ctx.ob(f"{fi.module.relpath}:{line} {fi.qualname}", f"the shape of `{obj}` is not captured before `{obj}.ravel()` and used after it (ravel() of a ragged view replaces the shape; "
                        f"the captured one no longer matches the flattened data)", not (ravels and uses), f"{var} = {obj}._shape at line {line}, {obj}.ravel() at line {ravels[0].lineno if ravels else '-'}",
                        key=f"C07-R5|{mod}|{fi.qualname}|{obj}")
-    ctx.floor("functions scanned for the stale-shape idiom", n, 60)
+    ctx.floor("functions scanned for the stale-shape idiom", n, 40)
     ctx.ob("bionumpy", f"{n} functions scanned: no ragged shape is captured before a ravel() of the same object and used after it", True, "")
 
 
-from .c20 import r6_memoised_results as _memoised_results      # a memoised encoder would hand the same writable array to every caller
+def _memoised_results(ctx):
+    from .c20 import r6_memoised_results      # a memoised encoder / text helper would hand the same writable array to every caller
+    r6_memoised_results(ctx, (EA, "bionumpy.io.strops", "bionumpy.string_array", "bionumpy.util.ragged_slice", "bionumpy.encodings.alphabet_encoding",
+                              "bionumpy.encodings.string_encodings", "bionumpy.encodings"))
+
 
 from ..through_time import make_rule as _mk_tt
 _through_time = _mk_tt("C07")
+
+def _retarget_and_shapes(ctx):
+    from .c06 import r2_retarget_guard, r4_shape_plumbing
+    r2_retarget_guard(ctx)     # comparison / assignment between two alphabet encodings goes through this guard
+    r4_shape_plumbing(ctx)
+def _join_split(ctx):
+    from .c18 import r4_float_and_list_formatting
+    r4_float_and_list_formatting(ctx)
 
 RULES = [
     ("C07-R1", r1_encoding_preserved),
@@ -231,4 +245,6 @@ RULES = [
     ("C07-R5", r5_stale_shape),
     ("C07-R6", _memoised_results),
     ("C07-T1", _through_time),
+    ("C07-R7", _retarget_and_shapes),
+    ("C07-R8", _join_split),
 ]
